@@ -478,6 +478,7 @@ static void driver_init() {
   g_hooks = ar::install_hooks();
   use_va();
   va::g.single_cap = (size_t)1 << 24;
+  va::g.index_blocks = true;
 }
 static const char* kDriverName = "drv_hist";
 #ifndef VH_FUZZ_TARGET
